@@ -6,6 +6,9 @@ import (
 	"reflect"
 	"strings"
 
+	"google.golang.org/grpc"
+	"google.golang.org/grpc/codes"
+	"google.golang.org/grpc/status"
 	"google.golang.org/protobuf/proto"
 	"google.golang.org/protobuf/reflect/protoreflect"
 	"google.golang.org/protobuf/types/known/fieldmaskpb"
@@ -17,7 +20,7 @@ import (
 // to add up concurrently.
 
 func init() {
-	register(&Scenario{Name: "lin-delta", Prop: "C02", Doc: "a tape-chosen discovered model server / memory device whose Update request has a delta flag, called directly: after two sequential +1 updates have shown that a numeric field adds up, 2-4 tasks issue 1-3 relative +1 updates each at the same time (interleaved at every window of the underlying write); the field ends at its value before plus the number of updates that reported success",
+	register(&Scenario{Name: "lin-delta", Prop: "C02", Doc: "a tape-chosen discovered model server / memory device whose Update request has a delta/relative flag, called directly: after two sequential relative updates (step 1, 30 or 45) have shown that a numeric field adds up, 2-4 tasks issue 1-3 such updates each at the same time (interleaved at every window of the underlying write); the field ends where a second instance of the server, given the same updates by one caller (minus those refused as conflicts), ends, with as many successes",
 		Run: linDeltaRun,
 		Info: func() any {
 			triplesOnce.Do(discoverTriples)
@@ -33,14 +36,25 @@ func init() {
 }
 
 func deltaField(tr triple) protoreflect.FieldDescriptor {
-	fd := tr.update.Input().Fields().ByName("delta")
-	if fd == nil || fd.Kind() != protoreflect.BoolKind || fd.IsList() {
-		return nil
+	for _, n := range []protoreflect.Name{"delta", "relative"} {
+		if fd := tr.update.Input().Fields().ByName(n); fd != nil && fd.Kind() == protoreflect.BoolKind && !fd.IsList() {
+			return fd
+		}
 	}
-	return fd
+	return nil
 }
 
-func linDeltaRun(w *World) {
+// stack-relative: the same through client -> wrapper -> router -> wrapper -> server, for C14's last sentence: an
+// Update that is rejected leaves Get unchanged - also when it is rejected in the middle of other clients' Updates.
+func init() {
+	register(&Scenario{Name: "stack-relative", Prop: "C14", Doc: "a tape-chosen discovered server whose Update request has a delta/relative flag, behind wrapper -> router -> wrapper: after two sequential relative updates (step 1, 30 or 45) have shown that a numeric field adds up, 2-4 clients issue 1-3 such updates each at the same time; Get then returns what a second instance of the server, given the same updates by one caller (minus those refused as conflicts), ends at, with as many successes - an Update that was rejected (for whatever reason, at whatever point) has changed nothing",
+		Run:  func(w *World) { linDeltaRunVia(w, true) },
+		Real: []string{"every discovered *pb.ModelServer / MemoryDevice whose Update request has a delta/relative flag", "generated routers and wrappers", "pkg/wrap", "pkg/router", "pkg/resource"}, Stub: []string{"client tasks"}})
+}
+
+func linDeltaRun(w *World) { linDeltaRunVia(w, false) }
+
+func linDeltaRunVia(w *World, viaStack bool) {
 	triplesOnce.Do(discoverTriples)
 	t := w.Tape
 	var cands []triple
@@ -70,25 +84,39 @@ func linDeltaRun(w *World) {
 	caseName := fmt.Sprintf("%s %s/%s.%s", tr.what, tr.entry.Desc.ServiceName, tr.x, fd.Name())
 	w.Mix(caseName)
 	w.MarkNontrivial()
-	srv := reflect.ValueOf(tr.server())
+	server := tr.server()
+	srv := reflect.ValueOf(server)
 	upd, get := srv.MethodByName(string(tr.update.Name())), srv.MethodByName(string(tr.get.Name()))
 	if !upd.IsValid() || !get.IsValid() {
 		return
 	}
+	const dev = "dev1"
+	var conn grpc.ClientConnInterface
+	if viaStack {
+		inner, _ := tr.entry.Wrap(server)
+		routerSrv, r := tr.entry.NewRouter()
+		r.Add(dev, inner)
+		_, conn = tr.entry.Wrap(routerSrv)
+	}
+	full := func(m protoreflect.MethodDescriptor) string {
+		return "/" + tr.entry.Desc.ServiceName + "/" + string(m.Name())
+	}
+	// the step: mostly 1; sometimes large, so that servers that bound the field get near the bound in a few steps
+	step := int64([]int{1, 1, 30, 45}[t.Choose(4)])
 	one := func() protoreflect.Value {
 		switch fd.Kind() {
 		case protoreflect.FloatKind:
-			return protoreflect.ValueOfFloat32(1)
+			return protoreflect.ValueOfFloat32(float32(step))
 		case protoreflect.DoubleKind:
-			return protoreflect.ValueOfFloat64(1)
+			return protoreflect.ValueOfFloat64(float64(step))
 		case protoreflect.Int32Kind, protoreflect.Sint32Kind:
-			return protoreflect.ValueOfInt32(1)
+			return protoreflect.ValueOfInt32(int32(step))
 		case protoreflect.Int64Kind, protoreflect.Sint64Kind:
-			return protoreflect.ValueOfInt64(1)
+			return protoreflect.ValueOfInt64(step)
 		case protoreflect.Uint32Kind:
-			return protoreflect.ValueOfUint32(1)
+			return protoreflect.ValueOfUint32(uint32(step))
 		}
-		return protoreflect.ValueOfUint64(1)
+		return protoreflect.ValueOfUint64(uint64(step))
 	}
 	num := func(m proto.Message) float64 {
 		v := m.ProtoReflect().Get(fd)
@@ -100,19 +128,32 @@ func linDeltaRun(w *World) {
 		}
 		return float64(v.Int())
 	}
-	plusOne := func() error {
+	// (on the server under test, or on a reference instance of the same server that is only ever called by one caller)
+	plusOneOn := func(upd reflect.Value, direct bool) error {
 		req := newMsg(tr.update.Input())
 		val := newMsg(tr.resource)
 		val.ProtoReflect().Set(fd, one())
 		req.ProtoReflect().Set(tr.updField, protoreflect.ValueOfMessage(val.ProtoReflect()))
 		req.ProtoReflect().Set(deltaField(tr), protoreflect.ValueOfBool(true))
+		if viaStack && !direct {
+			setName(req, dev)
+			return conn.Invoke(context.Background(), full(tr.update), req, newMsg(tr.update.Output()))
+		}
 		res := upd.Call([]reflect.Value{reflect.ValueOf(context.Background()), reflect.ValueOf(req)})
 		if e, ok := res[1].Interface().(error); ok && e != nil {
 			return e
 		}
 		return nil
 	}
-	cur := func() (float64, bool) {
+	curOn := func(get reflect.Value, direct bool) (float64, bool) {
+		if viaStack && !direct {
+			req, resp := newMsg(tr.get.Input()), newMsg(tr.get.Output())
+			setName(req, dev)
+			if err := conn.Invoke(context.Background(), full(tr.get), req, resp); err != nil {
+				return 0, false
+			}
+			return num(resp), true
+		}
 		res := get.Call([]reflect.Value{reflect.ValueOf(context.Background()), reflect.ValueOf(newMsg(tr.get.Input()))})
 		m, ok := res[0].Interface().(proto.Message)
 		if !ok || res[0].IsNil() {
@@ -120,25 +161,31 @@ func linDeltaRun(w *World) {
 		}
 		return num(m), true
 	}
+	plusOne := func() error { return plusOneOn(upd, false) }
+	cur := func() (float64, bool) { return curOn(get, false) }
 	// does this server add up, one call after the other?
 	v0, ok0 := cur()
 	e1 := plusOne()
 	v1, ok1 := cur()
 	e2 := plusOne()
 	v2, ok2 := cur()
-	if !ok0 || !ok1 || !ok2 || e1 != nil || e2 != nil || v1 != v0+1 || v2 != v0+2 {
+	if !ok0 || !ok1 || !ok2 || e1 != nil || e2 != nil || v1 != v0+float64(step) || v2 != v0+2*float64(step) {
 		w.Note("%s: relative updates do not simply add to this field (%v %v -> %v %v -> %v): not judged", caseName, v0, e1, v1, e2, v2)
 		return
 	}
-	okCalls := 0
+	okCalls, total, aborted := 0, 0, 0
 	nt := 2 + t.Choose(3)
 	for i := 0; i < nt; i++ {
 		k := 1 + t.Choose(3)
+		total += k
 		w.Go(fmt.Sprintf("c%d", i), false, func(task *Task) {
 			for j := 0; j < k; j++ {
 				task.Yield("op")
-				if err := plusOne(); err == nil {
+				switch err := plusOne(); {
+				case err == nil:
 					okCalls++ // (tasks run one at a time)
+				case status.Code(err) == codes.Aborted:
+					aborted++ // refused because another caller's write got in between: as if it had not been made
 				}
 			}
 		})
@@ -151,8 +198,25 @@ func linDeltaRun(w *World) {
 		w.Violate("write-hangs", caseName+": a relative update did not return: "+strings.Join(w.Unfinished(true), ","), map[string]any{"server": tr.what})
 		return
 	}
-	if v, ok := cur(); !ok || v != v2+float64(okCalls) {
-		w.Violate("lost-update", fmt.Sprintf("%s: the field was %v, %d relative +1 updates reported success at the same time, and it is now %v (two such updates one after the other had added exactly 2)", caseName, v2, okCalls, v), map[string]any{"server": tr.what})
+	// The reference: a second instance of the same server, called by one caller only, is given the same updates - the two
+	// probes and then one per call that was not refused as a conflict. The calls are all alike, so whatever order the
+	// concurrent ones took effect in, they must have come to the same: as many successes, and the same value (servers
+	// that cap a field cap it in the reference too; a call that is rejected changes nothing in either).
+	ref := reflect.ValueOf(tr.server())
+	rupd, rget := ref.MethodByName(string(tr.update.Name())), ref.MethodByName(string(tr.get.Name()))
+	okRef := 0
+	for i := 0; i < 2+total-aborted; i++ {
+		if err := plusOneOn(rupd, true); err == nil && i >= 2 {
+			okRef++
+		}
+	}
+	vRef, okR := curOn(rget, true)
+	if v, ok := cur(); !ok || !okR || v != vRef || okCalls != okRef {
+		class := "lost-update"
+		if viaStack {
+			class = "relative-update"
+		}
+		w.Violate(class, fmt.Sprintf("%s: the field was %v; of %d relative +%d updates issued at the same time %d reported success and %d were refused as conflicts, and it is now %v; the same server given those %d updates by one caller, one after the other, accepts %d and ends at %v", caseName, v2, total, step, okCalls, aborted, v, total-aborted, okRef, vRef), map[string]any{"server": tr.what})
 	}
 }
 
